@@ -44,6 +44,13 @@ def main(tier):
                      "panic": bool(x["p1"]["panic"] or x["p2"]["panic"])}
             run.violation(facts, {"line": x})
         run.extra["rejected_lines"] = len(bad)
+        # ---- the system specification, bound end to end (real client, simulated KDC, real service, attacker moves)
+        import sysk5
+        info, slines, problem = sysk5.run_sys(run, quick=not run.thorough)
+        run.extra["system_spec"] = info
+        run.cov["traces_validated_against_impl"] += info.get("events", 0) if not problem else 0
+        if problem:
+            run.violation({"system_trace": True}, {"problem": problem, "events": slines[:400]})
         run.assumptions += ["exact time boundaries (> vs >=) are not distinguished: instants are 3 s inside/outside each bound",
                             "tickets and authenticators are minted with gokrb5's own encoders/encryption (C05/C13 check those separately)",
                             "error codes are informational, not part of the verdict"]
